@@ -196,6 +196,12 @@ class Ctx:
             if f.startswith("race-%s" % sub):
                 with open(os.path.join(self.tmp, f), errors="replace") as fh:
                     self.race_reports.append(fh.read())
+        if r.returncode not in (0,) and not allow_crash:
+            where = library_panic(self.last_stderr)
+            if where:
+                # the harness process was brought down by a panic raised in library code (typically in a library goroutine, where
+                # nobody can recover it): that is the library's behaviour, not tool trouble
+                raise LibraryCrash(where, self.last_stderr)
         if r.returncode not in (0,) and not res and not allow_crash:
             raise ToolError("harness %s failed rc=%s:\n%s" % (sub, r.returncode, self.last_stderr[-4000:]))
         return res
@@ -213,6 +219,35 @@ class Ctx:
     def sample(self, s, cap=6):
         if len(self.samples) < cap:
             self.samples.append(s)
+
+
+class LibraryCrash(Exception):
+    def __init__(self, where, stderr):
+        Exception.__init__(self, where)
+        self.where, self.stderr = where, stderr
+
+
+def library_panic(stderr):
+    """If stderr holds a Go panic / fatal error whose innermost non-runtime frame is library code, returns that function's name."""
+    m = re.search(r"^(panic: |fatal error: )", stderr, flags=re.M)
+    if not m:
+        return None
+    rest = stderr[m.start():]
+    g = re.search(r"^goroutine \d+ .*\[running\]:\n", rest, flags=re.M)
+    if not g:
+        return None
+    for ln in rest[g.end():].split("\n"):
+        if not ln.strip():
+            break
+        if ln.startswith("\t") or ln.startswith("created by"):
+            continue
+        fn = ln.rsplit("(", 1)[0].strip()
+        if fn.startswith("runtime.") or fn.startswith("panic") or fn.startswith("sync.") or fn.startswith("internal/"):
+            continue
+        if fn.startswith("github.com/scrapli/scrapligo/"):
+            return fn[len("github.com/scrapli/scrapligo/"):]
+        return None
+    return None
 
 
 def split_blocks(lines):
@@ -339,6 +374,10 @@ def main(prop, run, level="model_checking"):
     ctx = Ctx(prop, a.tier if a.tier in ("quick", "thorough") else "quick", seed, a.replay)
     try:
         run(ctx)
+        rc = finish(ctx, level)
+    except LibraryCrash as e:
+        ctx.violation("%s:process-died:%s" % (prop, e.where), "the harness process was brought down by a panic in library code (%s):\n%s" % (e.where, e.stderr[-2500:]),
+                      {"kind": "crash", "where": e.where})
         rc = finish(ctx, level)
     except ToolError as e:
         log("[%s] TOOL ERROR (exit 2): %s" % (prop, e))
